@@ -27,15 +27,32 @@ def h64(x):
     return hashlib.blake2b(repr(x).encode(), digest_size=8).hexdigest()
 
 
+class CpuBudgetExceeded(Exception):
+    """the guarded block used more than its budget of process CPU time (a harness limit set far above what the unchanged library needs)"""
+
+
 class _Guard:
-    def __init__(self, rec, what, case, features):
+    def __init__(self, rec, what, case, features, cpu_seconds=None):
         self.rec, self.what, self.case, self.features = rec, what, case, features
         self.failed = False
+        self.cpu_seconds = cpu_seconds
+        self._old = None
 
     def __enter__(self):
+        if self.cpu_seconds:
+            import signal
+
+            def _alarm(signum, frame):
+                raise CpuBudgetExceeded(f'no result after {self.cpu_seconds} s of CPU time')
+            self._old = signal.signal(signal.SIGVTALRM, _alarm)
+            signal.setitimer(signal.ITIMER_VIRTUAL, self.cpu_seconds)       # process CPU time: independent of the load of the machine
         return self
 
     def __exit__(self, et, ev, tb):
+        if self.cpu_seconds:
+            import signal
+            signal.setitimer(signal.ITIMER_VIRTUAL, 0)
+            signal.signal(signal.SIGVTALRM, self._old)
         if et is None or not issubclass(et, Exception):
             return False
         import traceback
@@ -107,9 +124,10 @@ class Recorder:
             self.violations.append({'what': str(what)[:600], 'features': jsonable(features or {}),
                                     'witness': jsonable(witness), 'case': jsonable(case)})
 
-    def guard(self, what, case=None, features=None):
-        """context manager: an exception escaping the code under test inside the block is a violation (not a harness failure)"""
-        return _Guard(self, what, case, features)
+    def guard(self, what, case=None, features=None, cpu_seconds=None):
+        """context manager: an exception escaping the code under test inside the block is a violation (not a harness failure);
+        cpu_seconds: a block that burns that much process CPU time is interrupted and reported the same way (non-termination)"""
+        return _Guard(self, what, case, features, cpu_seconds or getattr(self, 'default_cpu_seconds', None))
 
     def inconclusive_because(self, reason):
         self.inconclusive.append(str(reason)[:400])
